@@ -15,6 +15,7 @@ import (
 	cryptocodec "github.com/cosmos/cosmos-sdk/crypto/codec"
 	"github.com/cosmos/cosmos-sdk/crypto/keys/ed25519"
 	"github.com/cosmos/cosmos-sdk/crypto/keys/secp256k1"
+	cryptotypes "github.com/cosmos/cosmos-sdk/crypto/types"
 	sdk "github.com/cosmos/cosmos-sdk/types"
 	authtypes "github.com/cosmos/cosmos-sdk/x/auth/types"
 	banktypes "github.com/cosmos/cosmos-sdk/x/bank/types"
@@ -48,6 +49,7 @@ type World struct {
 	Vals       []sdk.ValAddress
 	ValCons    []sdk.ConsAddress
 	ValOpAcc   []sdk.AccAddress
+	ValPub     []cryptotypes.PubKey // consensus keys (a removed validator can be created again with the same key)
 	Dels       []sdk.AccAddress
 	Probe      sdk.AccAddress
 	Stranger   sdk.AccAddress // a valid address that is not the authority
@@ -134,6 +136,7 @@ func NewWorld(t *testing.T) *World {
 	w.Vals = append(w.Vals, sdk.ValAddress(validator.Address))
 	w.ValCons = append(w.ValCons, sdk.ConsAddress(validator.Address))
 	w.ValOpAcc = append(w.ValOpAcc, sdk.AccAddress(validator.Address))
+	w.ValPub = append(w.ValPub, pv.PubKey())
 
 	// further validators through the real message handler
 	selfStake := []int64{0, 2_000_000, 3_000_000, 5_000_000, 1_500_000}
@@ -155,6 +158,7 @@ func NewWorld(t *testing.T) *World {
 		w.Vals = append(w.Vals, sdk.ValAddress(op))
 		w.ValCons = append(w.ValCons, sdk.ConsAddress(pk.Address()))
 		w.ValOpAcc = append(w.ValOpAcc, op)
+		w.ValPub = append(w.ValPub, pk)
 	}
 	_, err = w.App.StakingKeeper.EndBlocker(ctx)
 	mustOK(err)
@@ -185,6 +189,11 @@ func NewWorld(t *testing.T) *World {
 	w.mintTo(ctx, w.NativeDel2, sdk.NewCoins(sdk.NewCoin(w.BondDenom, math.NewInt(1_000_000_000_000))))
 	w.NativeDel = detAddr("native")
 	w.mintTo(ctx, w.NativeDel, sdk.NewCoins(sdk.NewCoin(w.BondDenom, math.NewInt(1_000_000_000_000))))
+
+	// operators hold spare staking tokens so that a validator that left can be created again
+	for _, op := range w.ValOpAcc {
+		w.mintTo(ctx, op, sdk.NewCoins(sdk.NewCoin(w.BondDenom, math.NewInt(1_000_000_000_000))))
+	}
 
 	// alliance params start from defaults with a fixed clock (zero time: set on first block)
 	mustOK(w.App.AllianceKeeper.SetParams(ctx, alliancetypes.DefaultParams()))
